@@ -136,6 +136,41 @@ func c12(env *core.Env, sel bool) {
 				break
 			}
 		}
+		if c.Bool("probe.resume", 1, 6) {
+			// resuming an upload the caller never started (empty, made-up or
+			// foreign id) is a write to the named repository like any other
+			repo := cfg.Repos[c.Int("probe.resume.repo", len(cfg.Repos))]
+			id := []string{"", "no-such-upload", "0"}[c.Int("probe.resume.id", 3)]
+			tracker.Reset()
+			w, err := wrapped.PushBlobChunkedResume(ctx, repo, id, 0, 0)
+			calls := slices.Clone(tracker.Calls)
+			if w != nil {
+				w.Close()
+			}
+			env.Op(fmt.Sprintf("probe-resume:%v:%s", denied(repo, ocifilter.AccessWrite), reg.CodeOf(err)))
+			env.Logf("%d probe PushBlobChunkedResume(%q, %q) -> %v (backend calls: %d)", i, repo, id, err, len(calls))
+			w0 := map[bool]string{false: "checker", true: "select"}[sel]
+			if denied(repo, ocifilter.AccessWrite) {
+				if len(calls) > 0 {
+					env.Failf("C12/"+w0+"/PushBlobChunkedResume/backend-reached", "PushBlobChunkedResume(%q, id %q): the policy rejects writes to %q but the wrapped registry was called: %s", repo, id, repo, calls[0])
+				}
+				if err == nil {
+					env.Failf("C12/"+w0+"/PushBlobChunkedResume/rejection-not-reported", "PushBlobChunkedResume(%q, id %q): the policy rejects writes to %q but the call succeeded", repo, id, repo)
+				}
+			} else {
+				// keep the twin in step (an upload names its repository into existence)
+				if tw, terr := twin.PushBlobChunkedResume(ctx, repo, id, 0, 0); terr == nil {
+					tw.Close()
+				} else if err == nil {
+					env.Failf("C12/"+w0+"/PushBlobChunkedResume/differs-from-wrapped", "PushBlobChunkedResume(%q, id %q) is allowed and succeeded through the wrapper but fails directly: %v", repo, id, terr)
+				}
+				for _, call := range calls {
+					if call.Repo != repo {
+						env.Failf("C12/"+w0+"/PushBlobChunkedResume/backend-wrong-repo", "PushBlobChunkedResume(%q, id %q) reached the backend as %s", repo, id, call)
+					}
+				}
+			}
+		}
 		if op.Kind >= reg.UpResume && !liveTwin[op.Handle] {
 			// the upload was never started (PushBlobChunked was rejected): nothing to do
 			continue
